@@ -60,6 +60,7 @@ class WireCore(object):
         self.short_writes = 0
         self.frag_reads = 0
         self.foreign_i = 0
+        self.foreign_due = None
         self.timeouts_seen = []     # timeout argument of every call
         self.connect_count = 0
         self.corrupted = None
@@ -209,6 +210,15 @@ class WireCore(object):
                 return b""
             if kind == "foreign":
                 if self.cur is None:
+                    # traffic for other streams takes time to arrive: the next packet is due `delta` after the previous one
+                    if self.foreign_due is None:
+                        self.foreign_due = self.clock.time() + stall.get("delta", 0.05)
+                    wait = self.foreign_due - self.clock.time()
+                    if wait > 0:
+                        if timeout is not None and max(timeout, 0) < wait:
+                            return self._nothing(n, timeout, idx)
+                        self.clock.advance(wait)
+                    self.foreign_due = None
                     pkt = self._foreign_packet()
                     self.cur = [bytearray(wire.encode(pkt.cmd, pkt.arg0, pkt.arg1, pkt.data)), pkt, "foreign", self.delivered_packets]
                 # falls through to normal delivery of the fabricated packet (not counted as delivered)
